@@ -17,6 +17,10 @@ func (s *syntaxSlicePositiveStepSubscript) getIndexes(srcLength int) []int {
 		for i := loopStart; i < loopEnd; i += s.step.number {
 			result[index] = i
 			index++
+			if s.step.number >= loopEnd-i {
+				// The next index is out of range. Adding a huge step could overflow.
+				break
+			}
 		}
 	}
 
